@@ -10,11 +10,16 @@ import (
 	"fmt"
 	"hash"
 	"math/rand/v2"
+	"os"
+	"runtime"
 	"runtime/debug"
 	"sort"
 	"strings"
 	"time"
 )
+
+// StuckLimit is the real time a task may run between two yields.
+var StuckLimit = 60 * time.Second
 
 // Epoch is where simulated time starts (well after any real mtime, so that a file whose
 // mtime was not fixed up is recognisable).
@@ -128,7 +133,8 @@ type Sim struct {
 	lastTask     *Task
 	hookAfter    func()
 	// Trace hook for tests: called at each op (in task goroutine, before parking).
-	OnOp func(t *Task, kind, target string)
+	OnOp    func(t *Task, kind, target string)
+	OnStuck func()
 }
 
 type deadline struct {
@@ -511,7 +517,19 @@ func (s *Sim) Run() {
 		s.cur = t
 		t.Steps++
 		t.resume <- struct{}{}
-		<-s.back
+		select {
+		case <-s.back:
+		case <-time.After(StuckLimit):
+			// a task neither yielded nor finished: it blocks on something the simulator does not
+			// control (or spins). This is an infrastructure failure, never a verdict.
+			buf := make([]byte, 1<<20)
+			n := runtime.Stack(buf, true)
+			fmt.Fprintf(os.Stderr, "SIM-STUCK: task %s (op %d) did not yield within %v; seed %d\n%s\n", t.Name, t.OpCount, StuckLimit, s.Cfg.Seed, buf[:n])
+			if s.OnStuck != nil {
+				s.OnStuck()
+			}
+			os.Exit(3)
+		}
 		s.cur = nil
 	}
 }
